@@ -176,11 +176,19 @@ Proof.
   - cbn. repeat split; auto.
 Qed.
 
-Lemma bytes_step cap m n : Inv m -> let '(r, m', t) := op_bytes cap m n in step_ok m r m' /\ m' = m.
+Lemma bytes_step_gen ch cap m n : Inv m -> let '(r, m', t) := op_bytes_gen ch cap m n in step_ok m r m' /\ (ch = true -> check_first t = true).
 Proof.
-  unfold step_ok. intro HI. unfold op_bytes.
+  unfold step_ok, Inv. intro HI. unfold op_bytes_gen.
   destruct (n <=? 0)%Z; [repeat split; auto|]. destruct (MAX_ALLOC <? Z.to_N n); [repeat split; auto|].
-  destruct (host_ok cap (Z.to_N n)); repeat split; auto.
+  destruct ch.
+  - destruct (ensure m (Z.to_N n)) eqn:E; [|repeat split; auto].
+    apply ensure_sound in E. destruct (host_ok cap (Z.to_N n)); cbn [add_manual heap manual maxb check_first]; repeat split; auto; lia.
+  - destruct (host_ok cap (Z.to_N n)); repeat split; auto; discriminate.
+Qed.
+Lemma bytes_step cap m n : Inv m -> let '(r, m', t) := op_bytes cap m n in step_ok m r m'.
+Proof.
+  intro HI. unfold op_bytes. pose proof (bytes_step_gen BYTES_CHARGED cap m n HI) as H.
+  destruct (op_bytes_gen BYTES_CHARGED cap m n) as [[r m'] t]. exact (proj1 H).
 Qed.
 
 (* ---- every allocating primitive, in every history *)
@@ -203,7 +211,7 @@ Proof.
   - pose proof (repeat_step cap m sl n HI) as H. destruct (op_repeat cap m sl n) as [[r m'] t]. destruct H as ((A & B & C) & D).
     repeat split; auto. intro Hn. apply D; assumption.
   - pose proof (pad_step cap m sc sb pb w HI) as H. destruct (op_pad cap m sc sb pb w) as [[r m'] t]. destruct H as ((A & B & C) & D & _). auto.
-  - pose proof (bytes_step cap m n HI) as H. destruct (op_bytes cap m n) as [[r m'] t]. destruct H as ((A & B & C) & D). auto.
+  - pose proof (bytes_step cap m n HI) as H. destruct (op_bytes cap m n) as [[r m'] t]. destruct H as (A & B & C). auto.
   - pose proof (string_checked_step cap m total HI) as H. destruct (op_string_checked cap m total) as [[r m'] t]. destruct H as ((A & B & C) & D & _). auto.
 Qed.
 
@@ -262,18 +270,48 @@ Lemma old_sweep_grown_witness :
 Proof. vm_compute. split; reflexivity. Qed.
 
 (* ---- byte buffers *)
+Definition w_cap_b : N := 1099511627776.
 Lemma bytes_bounded cap m n : (n <= 0)%Z \/ MAX_ALLOC < Z.to_N n -> op_bytes cap m n = (RTypeErr, m, []).
 Proof.
-  intros [H|H]; unfold op_bytes.
+  intros [H|H]; unfold op_bytes, op_bytes_gen.
   - destruct (n <=? 0)%Z eqn:E; [reflexivity | lia].
   - destruct (n <=? 0)%Z eqn:E; [reflexivity|]. destruct (MAX_ALLOC <? Z.to_N n) eqn:E2; [reflexivity | lia].
 Qed.
-Lemma bytes_host_bound cap m n : host_total (snd (op_bytes cap m n)) <= MAX_ALLOC /\ snd (fst (op_bytes cap m n)) = m.
+Lemma bytes_host_bound cap m n : host_total (snd (op_bytes cap m n)) <= MAX_ALLOC.
 Proof.
-  unfold op_bytes. destruct (n <=? 0)%Z; [cbn; split; [lia|reflexivity]|].
-  destruct (MAX_ALLOC <? Z.to_N n) eqn:E; [cbn; split; [lia|reflexivity]|].
-  destruct (host_ok cap (Z.to_N n)); cbn [snd fst host_total]; split; try reflexivity; lia.
+  unfold op_bytes, op_bytes_gen. destruct (n <=? 0)%Z; [cbn; lia|].
+  destruct (MAX_ALLOC <? Z.to_N n) eqn:E; [cbn; lia|].
+  destruct BYTES_CHARGED.
+  - destruct (ensure m (Z.to_N n)); [|cbn; lia]. destruct (host_ok cap (Z.to_N n)); cbn [snd fst host_total]; lia.
+  - destruct (host_ok cap (Z.to_N n)); cbn [snd fst host_total]; lia.
 Qed.
+(* byte buffers charged (the repaired natives): granted exactly when the buffer fits the budget, charged in full, the
+   check precedes the host allocation, a refusal changes nothing *)
+Lemma bytes_charged_exact cap m n : maxb m < U64 -> Inv m -> maxb m <= cap -> (0 < n)%Z -> Z.to_N n <= MAX_ALLOC ->
+  let '(r, m', t) := op_bytes_gen true cap m n in
+  (r = ROk <-> held m + Z.to_N n <= maxb m) /\ (r = ROk -> held m' = held m + Z.to_N n) /\ (r <> ROk -> m' = m) /\
+  check_first t = true /\ r <> RAbort /\ r <> RPanic.
+Proof.
+  intros Hx HI Hcap Hn Hmax. unfold Inv, held in *. unfold op_bytes_gen.
+  destruct (n <=? 0)%Z eqn:E0; [lia|]. destruct (MAX_ALLOC <? Z.to_N n) eqn:E1; [lia|].
+  destruct (ensure m (Z.to_N n)) eqn:E.
+  - apply ensure_sound in E. unfold host_ok. destruct (Z.to_N n <=? cap) eqn:Eh; [|lia].
+    cbn [add_manual heap manual maxb check_first]. repeat split; intros; try discriminate; try lia; congruence.
+  - repeat split; intros; try discriminate; try reflexivity.
+    rewrite ensure_complete in E; [discriminate | assumption | unfold MAX_ALLOC in *; unfold U64; lia].
+Qed.
+(* any number of byte buffers: the budget invariant holds after every one of them *)
+Lemma bytes_many_ok cap sz k m : Inv m -> Inv (snd (bytes_many cap sz k m)).
+Proof.
+  intro HI. unfold bytes_many. induction k using N.peano_ind; [exact HI|].
+  rewrite N.iter_succ. destruct (N.iter k (bytes_seq_step cap sz) (ROk, m)) as [r m1]. cbn [snd] in IHk.
+  unfold bytes_seq_step. destruct r; try exact IHk.
+  pose proof (bytes_step cap m1 sz IHk) as H. destruct (op_bytes cap m1 sz) as [[r2 m2] t]. destruct H as (A & _). exact A.
+Qed.
+(* OLD behaviour (buffers never charged): under a 1 MiB limit with 100 000 bytes in use a buffer of 200 000 000 bytes is
+   granted and the budget does not move *)
+Lemma bytes_uncharged_witness : op_bytes_gen false w_cap_b (mkMem 100000 0 1048576) 200000000 = (ROk, mkMem 100000 0 1048576, [EHost 200000000]).
+Proof. vm_compute. reflexivity. Qed.
 
 (* ---- the former counterexamples on the repaired definitions (limit 1 MiB, 100 000 bytes in use, host grants 2^40) *)
 Definition w_mem : mem := mkMem 100000 0 1048576.
@@ -518,6 +556,6 @@ Proof.
     destruct (vec_grow cap m v (Z.to_N a)) as [[[r m'] v'] t]. exact G.
   - unfold op_repeat, op_string. repeat match goal with |- context [if ?c then _ else _] => destruct c end; discriminate.
   - unfold op_pad. repeat match goal with |- context [if ?c then _ else _] => destruct c end; discriminate.
-  - unfold op_bytes. repeat match goal with |- context [if ?c then _ else _] => destruct c end; discriminate.
+  - unfold op_bytes, op_bytes_gen. repeat match goal with |- context [if ?c then _ else _] => destruct c end; discriminate.
   - unfold op_string_checked. repeat match goal with |- context [if ?c then _ else _] => destruct c end; discriminate.
 Qed.
